@@ -18,7 +18,7 @@ import re
 
 from ..match import bind_args, body_raises, calls, dispatch_chain, expected_term, returns, selects, term_of
 from ..model import own_nodes, parents
-from ..terms import show
+from ..terms import canon, show, walk_term
 
 EXPLANATION = ('Exhaustive-dispatch rule (R7) over a domain of heuristic names harvested from scripts/*.sh, examples/*, benchmarks/*, tests/*, README/docs, the CLI default and the self-test; '
                'call-graph binding of each name to the scorer the statement names; symbolic case enumeration (label first / second / both / neither) of generate_data_for_ranking; '
@@ -317,6 +317,14 @@ def coded_columns(repo, chk):
     chk.expect(okw, 'C05.4c', 'R6', mrg.site(), 'get_importances_estimate_pairwise(combination, reference_model_features, args, tmp_df=tmp_df)', 'each worker call scores its own combination on the coded frame', 'the worker closure must pass its combination and the coded frame')
 
 
+def _replace(term, what, by):
+    if term == what:
+        return by
+    if isinstance(term, tuple):
+        return tuple(_replace(x, what, by) for x in term)
+    return term
+
+
 # -- 5 / 6 ----------------------------------------------------------------------------------
 def coverage(repo, chk):
     fn = repo.func(COV, 'max_pair_coverage')
@@ -335,8 +343,15 @@ def coverage(repo, chk):
     ok_it = it in (E(f'range(len({a1}))'), E(f'range(len({a2}))'), E(f'range({a1}.shape[0])'))
     key = term_of(fn, inc.target.slice, inline=True)
     helper = next((f for q, f in m.funcs.items() if q.startswith('max_pair_coverage.')), None)
-    hname = f'{COV}.max_pair_coverage.{helper.name}' if helper else None
-    ok_key = helper is not None and key == ('call', ('name', helper.name), (E(f'{a1}[{i}]'), E(f'{a2}[{i}]')), ())
+    e1, e2 = E(f'{a1}[{i}]'), E(f'{a2}[{i}]')
+    opaque = key[0] == 'call' and key[1][0] == 'name'     # a local helper that is not a single return expression
+    if opaque:
+        ok_key = helper is not None and key == ('call', ('name', helper.name), (e1, e2), ())
+        hr = returns(helper) if helper is not None else []
+        kterm = canon(helper, hr[0].value, inline=True, bound={helper.params[0]: e1, helper.params[1]: e2}) if len(hr) == 1 and len(helper.params) >= 2 else None
+    else:
+        kterm = key
+        ok_key = True
     ok_inc = isinstance(inc.op, ast.Add) and isinstance(inc.value, ast.Constant) and inc.value.value == 1 and not any(isinstance(x, (ast.If, ast.Continue)) for x in ast.walk(lp))
     chk.expect(ok_it and ok_key and ok_inc, 'C05.5a', 'R9', fn.site(inc), ast.unparse(lp).replace('\n', ' ')[:140], 'every row increments the bucket of its own (a[i], b[i]) pair by 1', 'each row must add exactly 1 to the bucket keyed by its own pair (array1[i], array2[i])')
     cnt = inc.target.value.id if isinstance(inc.target.value, ast.Name) else None
@@ -344,19 +359,22 @@ def coverage(repo, chk):
     tot = [n for n in own_nodes(fn.node) if isinstance(n, ast.Assign) and isinstance(n.targets[0], ast.Name) and term_of(fn, n.value, inline=False) in (E(f'len({a1})'), E(f'len({a2})'))]
     tn = tot[0].targets[0].id if tot else None
     chk.expect(rt in (E(f'numpy.max({cnt}) / {tn}'), E(f'{cnt}.max() / {tn}'), E(f'numpy.max({cnt}) / len({a1})')), 'C05.5b', 'R15', fn.site(rets[0]), ast.unparse(rets[0]), 'score = largest bucket / number of rows', f'the score must be max(counts) / number of rows; found {show(rt)[:100]}')
-    # the key is a function of both elements
-    if helper is not None:
-        hr = returns(helper)
-        p1, p2 = helper.params[:2]
-        names = {x.id for x in ast.walk(hr[0].value) if isinstance(x, ast.Name)} if hr else set()
-        chk.expect({p1, p2} <= names, 'C05.5c', 'R9', helper.site(), ast.unparse(hr[0]) if hr else '', 'the bucket depends on both values of the pair', 'the pair key must depend on both elements')
+    # the key is a function of both elements of the row's own pair and of nothing else that varies with the row
+    ksite = helper.site() if (helper is not None and opaque) else fn.site(inc)
+    if kterm is None:
+        chk.unsure('C05.5c', 'R9', ksite, 'pair key', 'the pair key expression could not be recovered')
+    else:
+        subs = list(walk_term(kterm))
+        both = e1 in subs and e2 in subs
+        stripped = _replace(_replace(kterm, e1, ('name', '<el1>')), e2, ('name', '<el2>'))
+        stray = [t for t in walk_term(stripped) if t in (('name', i), ('name', a1), ('name', a2))]
+        chk.expect(both and not stray, 'C05.5c', 'R9', ksite, show(kterm)[:140], 'the bucket depends on both values of the row\'s own pair (and on no other row)', 'the pair key must depend on both elements of the row\'s own pair')
         size = inc.target.value.id if isinstance(inc.target.value, ast.Name) else None
         alloc = [n for n in own_nodes(fn.node) if isinstance(n, ast.Assign) and isinstance(n.targets[0], ast.Name) and n.targets[0].id == size and isinstance(n.value, ast.Call) and m.dotted(n.value.func) == 'numpy.zeros']
-        sz = ast.unparse(alloc[0].value.args[0]) if alloc else None
-        kt = hr[0].value if hr else None
-        ok_mod = isinstance(kt, ast.BinOp) and isinstance(kt.op, ast.Mod) and ast.unparse(kt.right) == sz
-        chk.expect(ok_mod, 'C05.5d', 'intervals', helper.site(), f'{ast.unparse(kt) if kt is not None else None}; counts = np.zeros({sz})', 'the bucket index is reduced modulo the number of buckets (in range of the zero-initialised count array)',
-                   f'the pair key must be (...) % {sz}, the size of the zero-initialised count array: otherwise the index leaves the array or pairs pile into few buckets')
+        szt = term_of(fn, alloc[0].value.args[0], inline=True) if alloc and alloc[0].value.args else None
+        ok_mod = kterm[0] == '%' and szt is not None and kterm[2] == szt
+        chk.expect(ok_mod, 'C05.5d', 'intervals', ksite, f'{show(kterm)[:100]}; counts = np.zeros({show(szt) if szt else None})', 'the bucket index is reduced modulo the number of buckets (in range of the zero-initialised count array)',
+                   f'the pair key must be (...) % {show(szt) if szt else "<size>"}, the size of the zero-initialised count array: otherwise the index leaves the array or pairs pile into few buckets')
     # 6: widening
     widened = {}
     for n in own_nodes(fn.node):
@@ -368,10 +386,12 @@ def coverage(repo, chk):
             if t in wide:
                 widened[nm] = n
     casts_in_helper = False
-    if helper is not None:
-        txt = ast.unparse(helper.node)
-        casts_in_helper = all(re.search(rf'\bint\({p}\)', txt) for p in helper.params[:2])
-    lits = [c.value for c in ast.walk(helper.node) if isinstance(c, ast.Constant) and isinstance(c.value, int) and abs(c.value) > 127] if helper else []
+    lits = []
+    if kterm is not None:
+        wrapped = _replace(_replace(kterm, ('call', ('lib', 'builtins.int'), (e1,), ()), ('name', '<w1>')), ('call', ('lib', 'builtins.int'), (e2,), ()), ('name', '<w2>'))
+        wrapped = _replace(_replace(wrapped, ('call', ('name', 'int'), (e1,), ()), ('name', '<w1>')), ('call', ('name', 'int'), (e2,), ()), ('name', '<w2>'))
+        casts_in_helper = e1 not in list(walk_term(wrapped)) and e2 not in list(walk_term(wrapped))
+        lits = [t[1] for t in walk_term(kterm) if isinstance(t, tuple) and len(t) == 2 and t[0] == 'num' and isinstance(t[1], int) and abs(t[1]) > 127]
     need = bool(lits)
     ok_w = (not need) or casts_in_helper or set(widened) == {a1, a2}
     chk.expect(ok_w, 'C05.6', 'R16', fn.site(), f'literals {lits} in the pair hash; widened: {sorted(widened)}', 'codes are widened to int64 before the scalar arithmetic',
